@@ -56,6 +56,7 @@ FIXES = [
     ('28-C11-combine1fiber-bad-region-exact-zero.patch', 'C11', 'C11.SCALE-FREE'),
     ('29-C02-yanny-file-objects-without-mode.patch', 'C02', 'C02.BINARY'),
     ('30-C16-readspec-znum-row.patch', 'C16', 'C16.ROWSEL'),
+    ('31-C17-aesthetics-mean-only-zero-ivar.patch', 'C17', 'C17.AESTH'),
 ]
 
 
